@@ -68,6 +68,16 @@ def _conv_peraxis(which, kind):
     return f
 
 
+def _reshape_peraxis_fc(name):
+    b = _b(name, "uint8")
+    x = b.input([1, 5, 3, 4])
+    t = b.t(x)
+    t.scales, t.zps, t.qdim = [0.01, 0.02, 0.03, 0.04], [0, 0, 0, 0], 3
+    y = b.fc(b.reshape(x, [1, 60]), 4)
+    b.t(b.net.ops[0].outputs[0]).scales = [0.33]
+    return b.finish([y]), None
+
+
 def _transpose(dims, perm, dt):
     def f(name):
         import netgen
@@ -257,6 +267,8 @@ ENTRIES = {
     "sqrt_uint8": (_unary("SQRT", "uint8", 0), "C13-37"),
     "log_uint8": (_unary("LOG", "uint8", 0), "C13-37"),
     "gelu_uint8": (_unary("GELU", "uint8", 128, opts=("GeluOptions", dict(Approximate=False))), "C13-37"),
+    # C13-38: == on per-axis scales
+    "reshape_peraxis_ifm_fc": (_reshape_peraxis_fc, "C13-38"),
     # repaired earlier by other patches; kept so that a regression is a plain VIOLATION
     "pad0_quantize_unit_height": (_pad0_quantize, "f04551a"),
     "slice_strided_conv_same": (_slice_window("conv", 1, 2, "SAME", (1, 9, 15, 4), ((0, 5, 0, 0), (1, 9, 5, 4))), "8ca1454"),
